@@ -1,6 +1,7 @@
-/- Driver ops for Sokoban.  Ops: sokoban.state, sokoban.step, sokoban.judge, sokoban.instance -/
+/- Driver ops for Sokoban.  Ops: sokoban.state, sokoban.step, sokoban.judge, sokoban.instance, sokoban.bounds -/
 import JumanjiModel.Bridge.Json
 import JumanjiModel.Env.Sokoban.Model
+import JumanjiModel.Env.Sokoban.Bounds
 import JumanjiModel.Prim.Float
 open Lean Jb
 
@@ -75,6 +76,12 @@ def opInstance : Op := fun j => do
               ("not_solved", jBool (boxesOnTarget cfg.n s != nBoxes)),
               ("step_zero", jBool (s.stepCount == 0))])
 
+/-- {cfg} → {leaf path: {"lo": rat|null, "hi": rat|null}}: the proved value bounds `obsBounds cfg` (C01) -/
+def opBounds : Op := fun j => do
+  let (cfg, _) ← getCfg j
+  let jo : Option Rat → Json := fun o => match o with | none => .null | some r => jRat r
+  pure (jObj ((obsBounds cfg).map (fun (k, lo, hi) => (k, jObj [("lo", jo lo), ("hi", jo hi)]))))
+
 def ops : List (String × Op) :=
-  [("sokoban.state", opState), ("sokoban.step", opStep), ("sokoban.judge", opJudge), ("sokoban.instance", opInstance)]
+  [("sokoban.bounds", opBounds), ("sokoban.state", opState), ("sokoban.step", opStep), ("sokoban.judge", opJudge), ("sokoban.instance", opInstance)]
 end Jb.Sokoban
